@@ -151,7 +151,24 @@ def comment_chars(text):
 
 
 def _words_cover(rem, words, limits):
-    """can the multiset rem be written as copies of the given words (at most limits[i] of word i)?"""
+    """can the multiset rem be written as copies of the given words (at most limits[i] of word i)?  Every word used here
+    has a letter no other word has (m, l, r, d, o), which fixes its multiplicity: no search (a search over all
+    multiplicities took hours on trees that lost many characters)."""
+    rem = +Counter(rem)
+    total = Counter()
+    for i, w in enumerate(words):
+        own = [c for c in w if all(c not in w2 for j, w2 in enumerate(words) if j != i)]
+        if not own:
+            return _words_cover_search(rem, words, limits)
+        k, r = divmod(rem.get(own[0], 0), w[own[0]])
+        if r or k > limits[i]:
+            return False
+        for c, n in w.items():
+            total[c] += n * k
+    return +total == rem
+
+
+def _words_cover_search(rem, words, limits):
     def search(rem, i):
         if not rem:
             return True
